@@ -34,6 +34,27 @@ def solver_level(ck, tier, seed, only=None):
         for alg in lsq.ALGS:
             items.append((P, ["NEW adj %s" % alg] + CMDS))
         info.append((i, P, ref))
+    # regularisation subsets that cannot resolve the defect: an unknown with an exactly zero column is left out of the
+    # subset, so one null vector has no component in it -- every algorithm must refuse (the same exception), none may
+    # return numbers (the norm of the restricted null vector is rounding noise, not an exact zero)
+    for j in range(tier_n(tier, 16, 150)):
+        if only is not None:
+            break
+        rng = np.random.default_rng([seed, j, 20202])
+        P = lsq.gen_problem(rng, force=dict(defect=int(rng.integers(1, 4)), zero_col=True, subset="all"))
+        zc = [c for c in range(P["A"].shape[1]) if not np.any(P["A"][:, c])]
+        ref = lsq.Reference(P)
+        if not zc or not ref.ok:
+            ck.inconc("not admitted (rank ambiguous / scale)")
+            continue
+        P["minx"] = [c + 1 for c in range(P["A"].shape[1]) if c != zc[0]]
+        P["meta"]["subset"] = "unresolving"
+        ref.set_subset(P["minx"])
+        if ref.subset_sv > 1e-20:
+            continue
+        for alg in lsq.ALGS:
+            items.append((P, ["NEW adj %s" % alg] + CMDS))
+        info.append((1000000 + j, P, ref))
     res = solver.run_scripts(items, batch=8)
     for k, (i, P, ref) in enumerate(info):
         meta = P["meta"]
@@ -60,7 +81,12 @@ def solver_level(ck, tier, seed, only=None):
                 ck.violation("solver:status:%s:%s" % (name, sing),
                              "algorithms disagree on whether %s exists: %s" % (name, dict(zip(lsq.ALGS, kinds))), wit)
                 continue
+            if meta.get("subset") == "unresolving" and name in ("x", "v", "sum-of-squares") and reps[0][0] == "OK":
+                ck.violation("solver:unresolving-subset-accepted:%s" % name,
+                             "all algorithms returned %s although the regularisation subset leaves a null vector untouched" % name, wit)
             if reps[0][0] != "OK":
+                continue
+            if meta.get("subset") == "unresolving":
                 continue
             vals = [np.array(rp[1][1:] if cmd in ("X", "R", "QXXALL", "QBBALL") else rp[1]) for rp in reps]
             scale = max(float(np.max(np.abs(v))) if len(v) else 0.0 for v in vals)
